@@ -50,6 +50,7 @@ def run(ctx):
     rule_rbk(ctx, F)
     rule_drop(ctx, F)
     rule_ver(ctx, F)
+    rule_shared(ctx, F)
 
 
 def _version_args(b, t):
@@ -590,3 +591,31 @@ def run_thorough(ctx):
     # type-level part of the property: compile-fail witnesses (rules/witness.py)
     import witness
     witness.run(ctx, "C09")
+
+
+# ---------------------------------------------------------------------------
+# C09.shared: writers change reader-visible node storage only in a version's name
+# ---------------------------------------------------------------------------
+
+def rule_shared(ctx, F):
+    """Readers of all versions walk the same node tree; what differs per version is what the Versioned slots in the nodes
+    hold.  A function of the node storage that takes a write lock therefore has to be told *which version* it is changing
+    (a `Version` parameter): a mutation without one is seen by every reader, held or new, committed or not."""
+    R = "C09.shared"
+    ctx.floor(R, 8)
+    n = 0
+    for p, b in sorted(F.bodies.items()):
+        if not re.match(r"^<?zonetree::in_memory::nodes::", p) or "::test" in p or b.kind not in ("Fn", "AssocFn"):
+            continue
+        # by type, not by how the guard was obtained (write(), upgradable_read().upgrade(), ...): the body holds a write guard
+        if not any(isinstance(ty, str) and re.search(r"RwLockWriteGuard<|MutexGuard<", ty) for ty in b.locals):
+            continue
+        locks = [bb for bb, tt in b.calls() if re.search(r"RwLock::<.*>::write$|RwLock::write$|Mutex::<.*>::lock$|::upgrade$", tt["fn"] or "")] or [0]
+        n += 1
+        has_version = any(b.locals[i] == VERSION_TY for i in range(1, b.nargs + 1))
+        ctx.ob(R, b, "a write-locking node-storage function is given the version it changes", has_version,
+               "%s takes a write lock on storage shared by the readers of every version but has no Version parameter: what "
+               "it changes (a child node coming into existence) is not scoped to the writer's version -- a held reader's "
+               "answer for that name turns from NXDOMAIN / the wildcard into NODATA as soon as an uncommitted writer descends "
+               "to it, and stays so after the writer is abandoned" % p.split("nodes::")[-1], b.where(locks[0]))
+    ctx.call_sites += n
